@@ -1340,8 +1340,19 @@ func (x *SX) evalFork(e ast.Expr, st *sxState) []evalOut {
 					res = append(res, evalOut{outcome: outcome{st: l.st}, val: simplify(TBin{v.Op, l.val, rs[0].val})})
 					continue
 				}
-				x.unsupported(l.st, "short-circuit operator with an effectful right operand")
-				res = append(res, evalOut{outcome: outcome{st: l.st}, val: TUnknown{"shortcircuit"}})
+				// the right operand has effects (or forks): decide the left operand on separate paths; the right one is evaluated only where
+				// the operator does not short-circuit
+				for _, bo := range x.branchTerm(l.val, l.st, v) {
+					if bo.kind != "" {
+						res = append(res, evalOut{outcome: bo.outcome})
+						continue
+					}
+					if (v.Op == token.LAND && !bo.truth) || (v.Op == token.LOR && bo.truth) {
+						res = append(res, evalOut{outcome: outcome{st: bo.st}, val: TConst{constant.MakeBool(bo.truth)}})
+						continue
+					}
+					res = append(res, x.evalFork(v.Y, bo.st)...)
+				}
 			}
 			return res
 		}
